@@ -54,6 +54,18 @@ _SCEN_ASSUME = ['scenario lookup (ScenarioManagerFactory.get_scenarios) returns 
                 'Python semantics of the subset (DESIGN 2.2.7); single-threaded']
 
 PROPS = {
+    'C03': dict(
+        mods=[], k1=[], level='other', engines=['contracts.c03_transpile'],
+        harness='verif/native/c03_harness.py', harness_budget=(25, 120), always_harness=True,
+        explanation='L1 (exhaustive over the real tables, parametric in the operand texts): every operator of generator/py/py.py emits  L <python token> R  flat, '
+                    'explicit parentheses and NOT are kept, IF is a fully parenthesised conditional, every formula-style built-in uses each argument as a unit. '
+                    'L2 (exhaustive over all operator pairs): CPython groups  x o1 y o2 z  and a leading / trailing unary minus exactly as the XMILE precedence table; '
+                    'comparison chains never reach the generator. L1+L2 give the XMILE grouping for flat chains of any length (operator-precedence meta-lemma). '
+                    'L3 (BOUNDED, not proof): the real front end on every arithmetic tree up to depth 2 and random trees up to depth 4 in several spellings: accepted '
+                    'sources translate to text equal to the reference semantics for all variable values (z3). Whole documents are compiled and evaluated natively',
+        assumptions=[], not_decided=['bounded stand-in (L3 and the native evaluation), never counted as proved: the PEG grammar / visitor are executed on generated sources, not verified; '
+                                     'arrays, modules, delay / smoothing / statistical built-ins are outside the vocabulary checked',
+                                     'known finding: an unknown function is translated to 0 with only a log line (does not fail loudly)']),
     'C04': dict(
         mods=[], k1=[], level='other', engines=['contracts.c04_euler'],
         harness='verif/native/c04_harness.py', harness_budget=(30, 150), always_harness=True,
